@@ -509,6 +509,50 @@ def _trace(rng, kind, force):
             'desc': f'mpc.np_{which}(a{list(s)}, offset={off}, axis1={ax1}, axis2={ax2})', 'key': (s, off, ax1, ax2, which, str(a.tolist()))}
 
 
+@op('np_compose', ALLK)
+def _compose(rng, kind, force):
+    """two array operations in a row: the first returns a view-like rearrangement (its declared shape and its underlying
+    NumPy array, possibly a read-only or strided view, are what the second operation works on)"""
+    s = rshape(rng, 3, 24, mindim=2, allow0=False)
+    a = rvals(rng, kind, s)
+    nd = len(s)
+    off = rng.randint(-2, 2)
+    ax1, ax2 = rng.sample(range(nd), 2)
+    perm = list(range(nd))
+    rng.shuffle(perm)
+    firsts = {
+        'diagonal': (lambda mpc, x: mpc.np_diagonal(x, offset=off, axis1=ax1, axis2=ax2), lambda x: np.diagonal(x, offset=off, axis1=ax1, axis2=ax2)),
+        'transpose': (lambda mpc, x: mpc.np_transpose(x, perm), lambda x: np.transpose(x, perm)),
+        'flip': (lambda mpc, x: mpc.np_flip(x), lambda x: np.flip(x)),
+        'reversed-slice': (lambda mpc, x: x[::-1], lambda x: x[::-1]),
+        'swapaxes': (lambda mpc, x: mpc.np_swapaxes(x, ax1, ax2), lambda x: np.swapaxes(x, ax1, ax2)),
+        'row': (lambda mpc, x: x[0], lambda x: x[0]),
+    }
+    seconds = {
+        'flip': (lambda mpc, y: mpc.np_flip(y), lambda y: np.flip(y)),
+        'add1': (lambda mpc, y: y + 1, lambda y: y + 1),
+        'negative': (lambda mpc, y: -y, lambda y: -y),
+        'roll': (lambda mpc, y: mpc.np_roll(y, 1), lambda y: np.roll(y, 1)),
+        'sum': (lambda mpc, y: mpc.np_sum(y, axis=0), lambda y: np.sum(y, axis=0)),
+        'concatenate': (lambda mpc, y: mpc.np_concatenate((y, y)), lambda y: np.concatenate((y, y))),
+        'flatten-list': (lambda mpc, y: mpc.np_fromlist(mpc.np_tolist(y.flatten())) if y.size else y.flatten(), lambda y: y.flatten()),
+        'transpose': (lambda mpc, y: y.T, lambda y: y.T),
+        'reshape': (lambda mpc, y: mpc.np_reshape(y, (-1,)), lambda y: y.reshape(-1)),
+        'copy': (lambda mpc, y: mpc.np_copy(y), lambda y: y.copy()),
+    }
+    f1 = rng.choice(sorted(firsts))
+    f2 = rng.choice(sorted(seconds))
+
+    def call(mpc, S, X):
+        return seconds[f2][0](mpc, firsts[f1][0](mpc, X['a']))
+
+    def ref(P):
+        return fmod(kind, seconds[f2][1](firsts[f1][1](P['a'])))
+    return {'inputs': {'a': a}, 'call': call, 'ref': ref, 'tags': ['compose:' + f1 + '+' + f2],
+            'desc': f'{f2}({f1}(a{list(s)})) [offset={off}, axes=({ax1},{ax2}), perm={perm}]',
+            'key': (s, f1, f2, off, ax1, ax2, tuple(perm), str(a.tolist()))}
+
+
 @op('np_argmin', ORD)
 def _argmin(rng, kind, force):
     s = rshape(rng, 3, 16, mindim=1, allow0=False)
@@ -835,6 +879,27 @@ def _det(rng, kind, force):
             break
     return {'inputs': {'a': a}, 'call': lambda mpc, S, X: mpc.np_det(X['a']), 'ref': lambda P: np.array(d, dtype=object),
             'desc': f'mpc.np_det(a[{n},{n}]) (nonsingular)', 'key': (n, str(a.tolist()))}
+
+
+@op('field_array_det', ['f11', 'f101'])
+def _field_det(rng, kind, force):
+    """np.linalg.det on the finite-field arrays under the secure arrays (FiniteFieldArray.gauss_det, which Runtime.np_det
+    applies to the opened masked matrix): sparse matrices over small fields, so that pivot searches with row swaps occur"""
+    n = rng.randint(1, 4)
+    batch = rng.choice([(), (), (2,), (2, 2)])
+    p = modulus(kind)
+    a = np.array([rng.randrange(p) if rng.random() < 0.55 else 0 for _ in range(int(np.prod(batch, dtype=int)) * n * n)],
+                 dtype=object).reshape(batch + (n, n))
+    d = np.empty(batch, dtype=object)
+    for i in np.ndindex(batch):
+        d[i] = _det_mod(a[i], p)
+
+    def call(mpc, S, X):
+        A = S.field.array(a.copy())
+        r = np.linalg.det(A)
+        return S.array(r) if batch else S(r)
+    return {'inputs': {'a': a}, 'call': call, 'ref': lambda P: d if batch else np.array(d[()], dtype=object),
+            'desc': f'np.linalg.det(GF({p}).array(a{list(a.shape)}))', 'key': (n, batch, str(a.tolist()))}
 
 
 def _det_int(a):
@@ -1235,12 +1300,12 @@ def _roll(rng, kind, force):
             'desc': f'mpc.np_roll(a{list(s)}, {shift}, axis={axis})', 'key': (s, shift, axis)}
 
 
-@op('np_roll_secret', ['int', 'f101'])
+@op('np_roll_secret', ['int', 'f101', 'fxp'])
 def _roll_secret(rng, kind, force):
     n = rng.randint(1, 7)
     a = rvals(rng, kind, (n,))
     sh = rng.randint(0, n)
-    return {'inputs': {'a': a, 'k': np.array(sh, dtype=object)},
+    return {'inputs': {'a': a, 'k': np.array(float(sh)) if kind == 'fxp' else np.array(sh, dtype=object)},
             'call': lambda mpc, S, X: mpc.np_roll(X['a'], mpc.np_getitem(X['k'], ())),
             'ref': lambda P: np.roll(a, sh), 'desc': f'mpc.np_roll(a[{n}], secret shift {sh})', 'key': (n, sh, str(a.tolist()))}
 
@@ -1376,7 +1441,10 @@ def _unit_vector(rng, kind, force):
     a = np.array(float(i)) if kind == 'fxp' else np.array(i, dtype=object)
     e = np.zeros(n, dtype=float if kind == 'fxp' else object)
     e[i] = 1
-    return {'inputs': {'a': a}, 'call': lambda mpc, S, X: mpc.np_unit_vector(mpc.np_getitem(X['a'], ()), n),
+    def call(mpc, S, X):
+        X['index'] = mpc.np_getitem(X['a'], ())   # the secure scalar handed to the protocol: must open to i afterwards
+        return mpc.np_unit_vector(X['index'], n)
+    return {'inputs': {'a': a}, 'derived': {'index': a}, 'call': call,
             'ref': lambda P: e,
             'scalar': lambda mpc, S, L: np.array(mpc.unit_vector(L['a'][()], n), dtype=object),
             'desc': f'mpc.np_unit_vector(secret {i}, {n})', 'key': (n, i)}
@@ -1384,7 +1452,7 @@ def _unit_vector(rng, kind, force):
 
 @op('np_find', ['int', 'f101'])
 def _find(rng, kind, force):
-    s = rshape(rng, 2, 12, mindim=1, allow0=False)
+    s = rshape(rng, 2, 12, mindim=1, allow0=False) if rng.random() < 0.5 else rshape(rng, 4, 24, mindim=3, allow0=False)
     a = rvals(rng, kind, s, 'bits')
     if rng.random() < 0.2:
         a[...] = rng.randint(0, 1)
@@ -1392,7 +1460,7 @@ def _find(rng, kind, force):
     if not bits:
         a = rvals(rng, kind, s, 'tiny' if kind == 'int' else 'small')
     target = rng.randint(0, 1) if bits else int(a.reshape(-1)[rng.randrange(a.size)])
-    axis = rng.choice([-1, -1, len(s) - 1, 0]) if len(s) > 1 else rng.choice([-1, 0])
+    axis = rng.choice([-1, -1, len(s) - 1, 0]) if len(s) == 2 else rng.randrange(-len(s), len(s))
     e = rng.choice(['default', -1, None])
 
     def call(mpc, S, X):
@@ -1669,6 +1737,56 @@ def _x_fixed(rng, kind, force):
         return [a0 * 2, a0 + 1, np.min(m2, axis=0, keepdims=True), np.max(m2, axis=-2, keepdims=True), np.argmin(col, axis=1),
                 np.argmax(col, axis=1, keepdims=True), np.rot90(m2, k=2), np.rot90(m2, k=1)]
     return {'inputs': {'a0': a0, 'm': m2, 'c': col}, 'call': call, 'ref': ref, 'desc': 'reproducers of fix 1163c56', 'key': 'x_fixed'}
+
+
+@directed('x_fixed_np_find_axis0_3d', 'int')
+def _x_fixed_find3d(rng, kind, force):
+    """np_find along the first axis of a 3-D array (repo fix 180e4a8: lanes came back transposed)"""
+    a = np.array([[[0, 1, 0], [0, 0, 1]], [[1, 0, 0], [0, 1, 0]], [[0, 0, 0], [1, 0, 0]], [[0, 0, 1], [0, 0, 0]]], dtype=object)
+    ref = np.where((a == 1).any(axis=0), (a == 1).argmax(axis=0), 4).astype(object)
+    return {'inputs': {'a': a}, 'call': lambda mpc, S, X: mpc.np_find(X['a'], 1, axis=0), 'ref': lambda P: ref,
+            'desc': 'mpc.np_find(a[4,2,3], 1, axis=0)', 'key': 'x_fixed_find3d'}
+
+
+@directed('x_fixed_np_unit_vector_operand', 'fxp')
+def _x_fixed_uv_operand(rng, kind, force):
+    """np_unit_vector must leave its secure fixed-point index untouched (repo fix a5e5bc4: in-place shift of the caller's share)"""
+    a = np.array(3.0)
+    e = np.zeros(7)
+    e[3] = 1
+
+    def call(mpc, S, X):
+        X['index'] = mpc.np_getitem(X['a'], ())
+        return [mpc.np_unit_vector(X['index'], 7), mpc.np_unit_vector(X['index'], 7)]
+    return {'inputs': {'a': a}, 'derived': {'index': a}, 'call': call, 'ref': lambda P: [e, e],
+            'desc': 'mpc.np_unit_vector(secfxp 3, 7) twice on the same secure number', 'key': 'x_fixed_uv_operand'}
+
+
+@directed('x_fixed_np_roll_secret_fxp', 'fxp')
+def _x_fixed_roll_fxp(rng, kind, force):
+    """np_roll with a secret fixed-point shift (repo fix 02ef684: result was scaled by 2^f)"""
+    a = np.array([1.0, 2.5, -3.0])
+    return {'inputs': {'a': a, 'k': np.array(1.0)}, 'call': lambda mpc, S, X: mpc.np_roll(X['a'], mpc.np_getitem(X['k'], ())),
+            'ref': lambda P: np.roll(a, 1), 'desc': 'mpc.np_roll(secfxp array [1, 2.5, -3], secret shift 1)', 'key': 'x_fixed_roll_fxp'}
+
+
+@directed('x_fixed_flip_of_diagonal', 'int')
+def _x_fixed_flip_diag(rng, kind, force):
+    """a NumPy function applied to the read-only view returned by np.diagonal (repo fix 72acc99)"""
+    a = np.arange(9, dtype=object).reshape(3, 3)
+    return {'inputs': {'a': a}, 'call': lambda mpc, S, X: mpc.np_flip(mpc.np_diagonal(X['a'])),
+            'ref': lambda P: np.array([8, 4, 0], dtype=object), 'desc': 'np.flip(np.diagonal(a[3,3]))', 'key': 'x_fixed_flip_diag'}
+
+
+@directed('x_fixed_field_det_row_swap', 'f11')
+def _x_fixed_det_swap(rng, kind, force):
+    """determinant of a permutation matrix over GF(11) (repo fix 377aa44: row swaps did not flip the sign)"""
+    a = np.array([[0, 1], [1, 0]], dtype=object)
+
+    def call(mpc, S, X):
+        return [S(np.linalg.det(S.field.array(a.copy()))), S(np.linalg.det(S.field.array(np.array([[0, 0, 1], [1, 0, 0], [0, 1, 0]], dtype=object))))]
+    return {'inputs': {'a': a}, 'call': call, 'ref': lambda P: [np.array(10, dtype=object), np.array(1, dtype=object)],
+            'desc': 'np.linalg.det over GF(11) of [[0,1],[1,0]] and of a 3-cycle', 'key': 'x_fixed_det_swap'}
 
 
 @directed('x_fixed_divide_scalar', 'f101')
